@@ -141,7 +141,7 @@ class ProtoBurstProfile:
 
     def gen_run(self, rnd, opts, tier, tag):
         if rnd.random() < opts.get("p_burst", 0.15):
-            plan, res = runner.profile("bytes").gen_run(rnd, {"prop": "C10"}, "quick", tag)
+            plan, res = runner.profile("bytes").gen_run(rnd, {"prop": opts.get("prop", "C10")}, tier if opts.get("prop") == "C08" else "quick", tag)
             res.extra = dict(getattr(res, "extra", {}) or {})
             res.extra["burst_runs"] = 1
             return plan, res
@@ -179,8 +179,8 @@ _GEN = ("Each run: seeded swarm parameters (module set, 0-4 services over the 4 
         "client scripts, service replies, clock advances, probes, junk and reloads; ends with a fault-free drain and EOF. ")
 
 PROPS = {
-    "C01": _spec("proto", _GEN + "Non-trivial = at least one verdict (D/R/k) was issued; distinct = distinct SHA-256 of the full command/reply history.",
-                 3000, 250000, {"fault_free_every": 8},
+    "C01": _spec("protoburst", _GEN + "12% of the runs are burst runs (a recorded, already judged session delivered again with several lines per read: nothing may follow a verdict that the line-per-read delivery did not have). Non-trivial = at least one verdict (D/R/k) was issued; distinct = distinct SHA-256 of the full command/reply history.",
+                 3000, 250000, {"fault_free_every": 8, "p_burst": 0.12},
                  expect_probes=["reannounce_live", "xr_stale", "xr_dup", "hurry_after_softdone", "registered_early", "reply_after_timeout"]),
     "C02": _spec("proto", _GEN + "Non-trivial = at least one verdict; acceptance conditions are evaluated at every D/R line.",
                  3000, 250000, {"fault_free_every": 8},
@@ -217,11 +217,13 @@ PROPS = {
                  "sorted lines naming it or its tag, tag normalised) is identical in all schedules, and no step about one client prints anything "
                  "about another. Non-trivial = >=2 conversations, two different schedules, at least one verdict.",
                  500, 40000, {}, quick_s=80),
-    "C08": _spec("bytes", "Three modes per run: robust (mutated/random byte streams from a recorded valid session, random read boundaries incl. >4096 "
+    "C08": _spec("protoburst", "65% of the runs are byte-stream runs: Three modes per run: robust (mutated/random byte streams from a recorded valid session, random read boundaries incl. >4096 "
                  "pending, EINTR/EAGAIN on reads, EOF at an arbitrary byte; oracle: no sanitizer report/signal/hang, exit 0, teardown), indiff (A line "
                  "per read vs B same bytes segmented+CRLF+read faults vs C junk interleaved; oracle: outputs equal, junk prints only notices), prefix "
-                 "(every prefix of a short stream then EOF). Non-trivial = the daemon produced protocol output beyond the banner.",
-                 1200, 100000, {}, quick_s=80),
+                 "(every prefix of a short stream then EOF). The other 35% are protocol runs (timers, reloads, stats probes, junk lines: "
+                 "a crash, sanitizer report, hang, unclean exit or output for a junk line is a C08 violation there too). "
+                 "Non-trivial = the daemon produced protocol output beyond the banner.",
+                 1200, 100000, {"p_burst": 0.65, "fault_free_every": 8}, quick_s=80),
     "C14": _spec("conf", "Each run: 1-6 settings registered with logging hooks (before the first load or later), 2-6 valid files over a small name/type "
                  "universe rendered in varied layouts, and after most of them damaged loads: truncation at a random byte (thorough: every byte of sampled "
                  "files), 1-4 byte flips, slice deletion/duplication, random bytes, empty file, missing file, failing fread - always on top of a live "
